@@ -163,7 +163,8 @@ def gen_op(w, rng):
         return ("register", c, rng.choice(SYMS), rng.choice([1.0, 2.0, 5.0]), rng.random() < 0.85, rng.random() < 0.3)
     if r < 0.55:
         k = rng.choice([1, 1, 2])
-        cs = [rng.choice(list(range(nb, nb + N_USER)) + ([rng.randrange(nb)] if rng.random() < 0.1 else [])) for _ in range(k)]
+        private_builtin = [w.cid(c) for c in w.snap[1].values()]
+        cs = [rng.choice(list(range(nb, nb + N_USER)) + ([rng.randrange(nb)] if rng.random() < 0.1 else []) + (private_builtin if rng.random() < 0.15 else [])) for _ in range(k)]
         return ("remove", cs)
     if r < 0.72:
         return ("reset", rng.random() < 0.8, rng.random() < 0.7)
@@ -226,6 +227,7 @@ def run(rep, tier, seed, tr_errors):
     tmpl = [("register", len(w.builtin), "Ud", 2.0, True, True), ("register", len(w.builtin), "Ud", 2.0, True, False),
             ("register", len(w.builtin) + 1, "Ud", 5.0, True, False), ("register", len(w.builtin), "R", 2.0, True, False),
             ("register", len(w.builtin), "Ue", 2.0, False, False), ("remove", [len(w.builtin)]), ("remove", [0]),
+            ("remove", [w.cid(w.snap[1]["K"])]), ("remove", [len(w.builtin), w.cid(w.snap[1]["Ky"])]),
             ("reset", True, True), ("reset", True, False), ("reset", False, True), ("set_default", 0, 3.0), ("reset_defaults", None)]
     L = 3 if tier == "quick" else 4
     seqs = [list(s) for n in range(1, L + 1) for s in itertools.product(tmpl, repeat=n)]
